@@ -351,6 +351,16 @@ func newWorld(r *explore.Run, filterIdx, asks int, comp *v1.Composition, fn xrh.
 	case 2:
 		w.dest = secKey(sysNS, string(xrUID))
 	}
+	// A real stored object always has managed fields (from its creation);
+	// a seeded one must be given them, or the API server model would never
+	// start tracking client-side writes and the SSA claim syncer's managed
+	// fields upgrade (a JSON patch replacing /metadata/managedFields) could
+	// not apply.
+	now := metav1.Now()
+	xr.SetManagedFields([]metav1.ManagedFieldsEntry{{
+		Manager: "kubectl-create", Operation: metav1.ManagedFieldsOperationUpdate, APIVersion: xrh.XRGVK.GroupVersion().String(), Time: &now,
+		FieldsType: "FieldsV1", FieldsV1: &metav1.FieldsV1{Raw: []byte(`{"f:spec":{"f:param":{}}}`)},
+	}})
 	w.s.Seed(xr)
 	cm := xrh.Claim(cmNS, cmName)
 	cm.SetUID(cmUID)
